@@ -25,7 +25,7 @@ BUDGET = {'quick': (8, 150), 'thorough': (16, 3000)}
 RULE = ('single: trees of depth <=6, <=14 nodes, of with-blocks over 6 valid entry kinds (name, '
         'a/b, list, captured scope, None, "") and 16 invalid values (wrong types, empty / blank / '
         'invalid components, lists with bad members, objects whose truth value or == raises incl. '
-        'a 2-element numpy array), exits normal or by an exception raised in the body; after every '
+        'a 2-element numpy array), exits normal, by an Exception or a BaseException raised in the body, or by closing a generator suspended inside the block; calls of scoped configurables / scoped references shared between threads; after every '
         'step current_scope()/current_scope_str() and a scoped probe call are compared with a model '
         'stack. Sweep: all chains of nesting depth <=2/<=3 x exit kinds (exhaustive). threads: 2-4 '
         'programs under a generated schedule (line granularity inside gin/). Non-trivial (single) = '
@@ -63,6 +63,27 @@ CONFIG = '\n'.join(f"{s + '/' if s else ''}c09probe.p = {v!r}" for (s, _), v in 
 
 class _BodyError(Exception):
   pass
+
+
+class _BaseBodyError(BaseException):
+  """Leaves a block the way KeyboardInterrupt / SystemExit / GeneratorExit do."""
+
+
+@gin.configurable('c09user')
+def _user(x=None):
+  return x
+
+
+SHARED_SCOPES = ['a', 'x/y', 'a/b', 'b']
+SHARED = []      # scoped callables shared by all threads of a case (built per case)
+
+
+def build_shared():
+  del SHARED[:]
+  for sc in SHARED_SCOPES:
+    SHARED.append((sc, gin.get_configurable(f'{sc}/c09probe')))
+  gin.parse_config('c09user.x = @a/b/c09probe()')
+  SHARED.append(('a/b', _user))
 
 
 class _BoolRaises:
@@ -112,6 +133,17 @@ def run_program(nodes, observe, captured, labels, yield_now=lambda: None, depth=
       observe(call=False)
     elif kind == 'call':
       observe(call=True)
+    elif kind == 'scoped-call':
+      # a scoped configurable / a scoped reference shared with the other threads: it must run
+      # under exactly its own scope, whatever is active here or elsewhere, and change nothing
+      sc, fn = SHARED[node[1] % len(SHARED)]
+      got = fn()
+      want = M.overlay(BINDINGS, sc.split('/')).get('p', 'default')
+      require(got == want, 'scoped-callable',
+              lambda: f'callable scoped {sc!r} returned {got!r}, expected {want!r} '
+                      f'(active scope {observe.stack.current})')
+      labels.add('scoped-call')
+      observe(call=False, what='after scoped call')
     elif kind == 'with':
       _, spec, exit_kind, children = node
       model = observe.stack
@@ -147,10 +179,12 @@ def run_program(nodes, observe, captured, labels, yield_now=lambda: None, depth=
         observe(call=True, what=f'after rejected entry {spec}')
         labels.add('exit:invalid-entry')
         continue
-      entered = False
-      try:
+      entered = [False]
+
+      def body():
+        """The with block, as a generator so that it can also be left by GeneratorExit."""
         with gin.config_scope(entry) as yielded:
-          entered = True
+          entered[0] = True
           model.enter(list(entry) if isinstance(entry, list) else entry)
           require(yielded == model.current, 'yielded-scope',
                   lambda: f'{spec}: yielded {yielded} model {model.current}')
@@ -161,11 +195,32 @@ def run_program(nodes, observe, captured, labels, yield_now=lambda: None, depth=
           if exit_kind == 'raise':
             labels.add('exit:raise')
             raise _BodyError()
+          if exit_kind == 'raise-base':
+            labels.add('exit:raise-base')
+            raise _BaseBodyError()
+          yield
+
+      try:
+        g = body()
+        try:
+          next(g)          # runs the block up to its end; the scope is still active here
+          if exit_kind == 'genclose':
+            labels.add('exit:generator-close')
+            observe(call=True, what=f'suspended inside {spec}')
+            g.close()      # GeneratorExit is thrown at the yield: the block is left by it
+          else:
+            for _ in g:    # resume: leave the block normally
+              pass
+        finally:
+          g.close()
       except _BodyError:
         if exit_kind != 'raise':
           raise
+      except _BaseBodyError:
+        if exit_kind != 'raise-base':
+          raise
       finally:
-        if entered:
+        if entered[0]:
           model.exit()
       require(model.current == before, 'model-error', '')
       observe(call=True, what=f'after leaving {spec} ({exit_kind})')
@@ -197,6 +252,7 @@ def make_observer(log, label):
 def check_single(case):
   gin.clear_config()
   gin.parse_config(CONFIG)
+  build_shared()
   labels = {'kind:single'}
   log = []
   observe = make_observer(log, '')
@@ -205,7 +261,7 @@ def check_single(case):
   except IndexError as e:
     raise Violation('scope-stack-corrupted', f'IndexError: {e}')
   require(gin.current_scope() == [], 'scope-not-restored-at-end', str(gin.current_scope()))
-  nt = ('depth>=3' in labels and bool(labels & {'exit:raise', 'exit:invalid-entry'}) and
+  nt = ('depth>=3' in labels and bool(labels & {'exit:raise', 'exit:raise-base', 'exit:generator-close', 'exit:invalid-entry'}) and
         bool(labels & {'entry:list', 'entry:captured', 'entry:none', 'entry:empty'}))
   if nt:
     labels.add('single:nontrivial')
@@ -215,6 +271,7 @@ def check_single(case):
 def check_threads(case):
   gin.clear_config()
   gin.parse_config(CONFIG)
+  build_shared()
   tape = case['schedule']
   rng = random.Random(tape.get('s') or 1)
   choices = list(tape.get('t', [])) + [rng.randrange(4) for _ in range(tape.get('n', 0))]
@@ -277,14 +334,16 @@ _valid_spec = st.one_of(
 
 
 def _nodes(depth, spec=_spec):
-  leaf = st.sampled_from([['check'], ['call']])
+  leaf = st.sampled_from([['check'], ['call'], ['scoped-call', 0], ['scoped-call', 1],
+                          ['scoped-call', 2], ['scoped-call', 4]])
   if depth <= 0:
     return st.lists(leaf, max_size=2)
   node = st.one_of(
       leaf,
       st.tuples(st.just('with'), spec, st.sampled_from(['normal', 'normal', 'raise']),
                 _nodes(depth - 1, spec)).map(list),
-      st.tuples(st.just('with'), spec, st.sampled_from(['normal', 'raise']),
+      st.tuples(st.just('with'), spec, st.sampled_from(['normal', 'raise', 'raise-base',
+                                                        'genclose']),
                 _nodes(depth - 1, spec)).map(list))
   return st.lists(node, min_size=1, max_size=3)
 
@@ -308,11 +367,13 @@ def sweep(tier):
   kmax = 3 if tier == 'thorough' else 2
   specs = [['name', 'a'], ['name', 'a/b'], ['list', ['x', 'y']], ['list', []], ['captured', 0],
            ['none'], ['empty'], ['bad', 6], ['bad', 14], ['bad', 15], ['bad', 16], ['bad', 20]]
-  entries = [(sp, ex) for sp in specs for ex in ('normal', 'raise')]
+  exits = ('normal', 'raise', 'raise-base', 'genclose') if tier == 'thorough' else (
+      'normal', 'raise', 'genclose')
+  entries = [(sp, ex) for sp in specs for ex in exits]
   cases = []
 
   def build(chain):
-    inner = [['call']]
+    inner = [['call'], ['scoped-call', 2]]
     for sp, ex in reversed(chain):
       inner = [['with', sp, ex, inner], ['check']]
     return inner
